@@ -283,7 +283,32 @@ def causal_order(ops, notes):
                 notes['reordered'] += 1
                 continue
         out.append(o)
-    return out
+    # the mirror image: a call of one process that was told p is ABSENT, logged while -- in the order of the log -- p
+    # exists, just in front of the removal of p by another process: it happened behind that removal
+    res, known, deferred = [], {}, []          # deferred: (index in `out` of the removal to wait for, op)
+    for i, o in enumerate(out):
+        if o['k'] == 'Stat' and o['r'] == 'absent' and known.get(o['p']) is True:
+            j = next((k for k in range(i + 1, len(out))
+                      if out[k]['k'] in ('Unlink', 'Rmdir', 'Rename') and out[k]['p'] == o['p']), None)
+            if j is not None and out[j]['pid'] != o['pid'] and abs(out[j]['t'] - o['t']) < 0.05 and \
+                    not any((x['k'] in ('Create', 'Mkdir') and x['p'] == o['p']) or x.get('q') == o['p'] for x in out[i + 1:j]):
+                deferred.append((j, o))
+                notes['reordered'] += 1
+                continue
+        res.append(o)
+        if o['k'] in ('Create', 'Mkdir', 'OpenR', 'OpenW', 'ListDir') or (o['k'] == 'Stat' and o['r'] != 'absent'):
+            known[o['p']] = True
+        elif o['k'] in ('Unlink', 'Rmdir'):
+            known[o['p']] = False
+        elif o['k'] == 'Rename':
+            known[o['p']] = False
+            known[o['q']] = True
+        elif o['k'] == 'Stat':
+            known[o['p']] = False
+        for j, d in [x for x in deferred if x[0] == i]:
+            res.append(d)
+        deferred = [x for x in deferred if x[0] != i]
+    return res
 
 
 def to_ops(events, roots):
